@@ -572,6 +572,9 @@ def run(tier, seed):
             ex['depth'] = max(ex['depth'], 3)
             ex['want_single_final'] = True
         chosen.append(ex)
+    # one wide exchange: 12 single-element reads all in flight at once (contexts of 1 and 2 digits), judged under whole-frame losses only
+    chosen.append({'ops': [{'kind': 'read', 'tag': 'V', 'elem': 3 * j + (seed % 3), 'count': 1} for j in range(12 if not thorough else 21)],
+                   'api': 'pipeline', 'depth': 12 if not thorough else 21, 'multiple': 0, 'wide': True})
     stats = Stats()
     measured = []
     for ex in chosen:
@@ -585,6 +588,17 @@ def run(tier, seed):
             continue
         ex = m['exchange']
         base = {'exchange': ex, 's2c_frame_ends': m['ends']}
+        if ex.get('wide'):
+            starts = [0] + m['ends'][:-1]
+            fr = list(zip(starts, m['ends']))[1:]
+            runs = [(fr[i][0], fr[j][1]) for i in range(len(fr)) for j in range(i, len(fr) - 1)]       # every contiguous run of lost replies followed by a delivered one
+            if not thorough:
+                runs = [r for n, r in enumerate(runs) if r[0] == fr[0][0] or n % 3 == seed % 3]
+            for a, b in runs:
+                cases.append(dict(base, fault={'dir': 's2c', 'kind': 'drop', 'at': a, 'until': b}))
+            stats.exhaustive['wide exchange (pipeline depth=%d, %d single-element reads)' % (ex['depth'], len(ex['ops']))] = (
+                '%d contiguous runs of whole reply frames lost, a later reply still delivered' % len(runs))
+            continue
         for k in range(0, m['S'] + 1):
             cases.append(dict(base, fault={'dir': 's2c', 'kind': 'cut', 'at': k}))
         cstep = 1 if thorough else (3 if ex['api'] == 'proxy' else 2)
